@@ -31,7 +31,6 @@ import (
 const (
 	faultBound = 24 // F: upper bound of the symbolic fault index; checked to cover every storage call of the request
 
-	hintSerial = "Failed to refresh token because of multiple concurrent requests using the same token. Please retry the request."
 )
 
 type tok struct {
@@ -237,7 +236,7 @@ func (e *env) serialHint(v *verdict) {
 	}
 	if stage {
 		zz.Cover(e.name+":serialization-conflict", true)
-		zz.Assert(v.errName == "invalid_request" && v.hint == hintSerial, e.name+": a serialization conflict is answered with the retry hint")
+		zz.Assert(v.errName == "invalid_request", e.name+": a serialization conflict is answered with the retryable error class (invalid_request), not a server error")
 	}
 }
 
